@@ -25,7 +25,7 @@ __CPROVER_requires(outbuf == &BUF && data == (const void *)USERDATA && extra == 
 /* the referenced region [data, data + offset + datlen) is an object of the caller: no object is larger than EVBUFFER_CHAIN_MAX (SSIZE_MAX) */
 __CPROVER_requires(offset <= EVBUFFER_CHAIN_MAX && datlen <= EVBUFFER_CHAIN_MAX - offset)
 __CPROVER_requires(g_lock_depth[1] == 0 && g_lock_depth[2] == 0 && g_lock_depth[3] == 0 && m_al.n == 0 && m_al.fail == 0 && m_al.frees == 0 && m_al.heap_frees == 0 && m_al.sfreed == 0 && m_al.hfreed == 0 && m_cl.n == 0 && m_cl.mask == 0 && g_cbs.n[0] == 0)
-__CPROVER_assigns(errno, __CPROVER_object_whole(g_lock_depth), g_lock_ops, m_new[0], m_new[1], m_new[2], m_st, g_cbs,
+__CPROVER_assigns(errno, vf_nchoice_, __CPROVER_object_whole(g_lock_depth), g_lock_ops, m_new[0], m_new[1], m_new[2], m_st, g_cbs,
 	__CPROVER_object_whole(&BUF), __CPROVER_object_whole(&XC[0]), __CPROVER_object_whole(&XC[1]), __CPROVER_object_whole(&XC[2]),
 	__CPROVER_object_whole(&SRC), __CPROVER_object_whole(&PC[0]), __CPROVER_object_whole(&PC[1]), __CPROVER_object_whole(&PC[2]), __CPROVER_object_whole(&SEG))
 /* 1 C08 */
